@@ -102,12 +102,26 @@ def generate(prop, seed, tier):
     pres = []
     for _ in range(g.randrange(3, 6)):
         pres.append({'naming': g.choice(['int', 'str', 'node', 'node', 'intperm']), 'vorder': g.perm(n), 'seed': g.randrange(1 << 30)})
+    # other graphs over the same vertex objects, decomposed earlier in the same run (state must not leak between calls)
+    prior = []
+    for _ in range(g.randrange(0, 3)):
+        es = {tuple(e) for e in edges}
+        for _ in range(g.randrange(1, 6)):
+            if n >= 2:
+                a, b = g.sample(range(n), 2)
+                e = (min(a, b), max(a, b))
+                if g.random() < 0.7:
+                    es.add(e)
+                else:
+                    es.discard(e)
+        prior.append(sorted(list(e) for e in es))
     return {'engine': 'treedec', 'prop': prop, 'seed': seed, 'n': n, 'edges': [list(e) for e in edges], 'pres': pres,
-            'methods': ['min_fill', 'quickbb', 'acb']}
+            'methods': ['min_fill', 'quickbb', 'acb'], 'prior': prior}
 
 
 def reducers(case):
     yield from list_reductions(case, ['pres'], min_len=1)
+    yield from list_reductions(case, ['prior'])
     yield from list_reductions(case, ['methods'], min_len=1)
     yield from list_reductions(case, ['edges'])
     if case['n'] > 0:
@@ -119,6 +133,7 @@ def reducers(case):
                 c['edges'] = [[a - (a > v), b - (b > v)] for a, b in c['edges']]
                 for p in c['pres']:
                     p['vorder'] = [x - (x > v) for x in p['vorder'] if x != v]
+                c['prior'] = []
                 yield c
                 break
 
@@ -172,6 +187,17 @@ def execute(case):
                 graph, names = present(F, case, p)
                 inv = {names[i]: i for i in range(n)}
                 cp = lambda: {u: set(vs) for u, vs in graph.items()}
+                for pe in case.get('prior', []):
+                    pg = {names[v]: set() for v in p['vorder']}
+                    for u, v in pe:
+                        pg[names[u]].add(names[v])
+                        pg[names[v]].add(names[u])
+                    for m in case['methods']:
+                        try:
+                            FZ.tree_decomposition({u: set(vs) for u, vs in pg.items()}, method=m)
+                        except Exception:
+                            pass        # judged when it is the main graph of some run
+                    c.inc('probe.prior-graph-decomposed')
                 for m in case['methods']:
                     try:
                         td = FZ.tree_decomposition(cp(), method=m)
